@@ -100,7 +100,8 @@ class C19(Prop):
             key = (cfg["dir"], cfg["fn"] if cfg["fn"] not in ("~", "-") else kv["test"], ext, kv["test"])
             k_of[key] = k_of.get(key, 0) + 1
             k = k_of[key]
-            writes = [w for w in o.get("writes", "-").split(",") if w != "-"]
+            # (only snapshot files are this property's subject: a marker file the library drops next to them is not)
+            writes = [w for w in o.get("writes", "-").split(",") if w != "-" and b".snap" in unhx(w.split(":", 1)[1]).rsplit(b"/", 1)[-1]]
             if o["outcome"] in ("added", "updated"):
                 if len(writes) != 1:
                     fails.append({"msg": "obs %d: %s with writes %s" % (idx, o["outcome"], writes)})
